@@ -1,8 +1,8 @@
 SPECIFICATION Spec
-VIEW view
 INVARIANT SucceedsIffAllPass
 INVARIANT FirstFailingDecides
 INVARIANT ResetAcceptsAll
+PROPERTY Independent
 CHECK_DEADLOCK FALSE
 CONSTANTS NLay = 2
  NameSet = {6}
